@@ -1,7 +1,9 @@
 package eng
 
 import (
+	"fmt"
 	"math"
+	"os"
 	"sort"
 
 	"github.com/feichai0017/NoKV/kv"
@@ -23,6 +25,7 @@ type Tracker struct {
 	mem      map[string]bool
 	memSeq   map[string]int // write sequence of the copy held by the memtable
 	newest   map[string]int // write sequence of the newest copy of a key anywhere
+	writes   map[string]int // number of writes ever made to the key
 	clock    int
 	memMaybe map[string]bool
 	tabs    map[uint64]*ttab
@@ -39,7 +42,7 @@ type ttab struct {
 
 // NewTracker returns an empty tracker.
 func NewTracker() *Tracker {
-	return &Tracker{mem: map[string]bool{}, memSeq: map[string]int{}, newest: map[string]int{}, tabs: map[uint64]*ttab{}}
+	return &Tracker{mem: map[string]bool{}, memSeq: map[string]int{}, newest: map[string]int{}, writes: map[string]int{}, tabs: map[uint64]*ttab{}}
 }
 
 // BaseKey is the identity of a plain-API key (sentinel version) used by the tracker.
@@ -56,6 +59,7 @@ func (t *Tracker) Wrote(k string) {
 	t.mem[k] = true
 	t.memSeq[k] = t.clock
 	t.newest[k] = t.clock
+	t.writes[k]++
 	delete(t.memMaybe, k)
 }
 
@@ -102,6 +106,28 @@ func (t *Tracker) Sync(layout []lsm.VerifTableInfo, flushed bool) {
 		t.mem = map[string]bool{}
 		t.memSeq = map[string]int{}
 		t.memMaybe = nil
+	case len(added) == 0 && len(gone) > 0:
+		// tables vanished without outputs (seen after reopen: an ingest merge had folded a main
+		// table into its outputs but kept it listed in memory): their keys may live in any table
+		// of the same level whose range covers them
+		for _, g := range gone {
+			for k := range g.keys {
+				homed := false
+				for fid, tb := range t.tabs {
+					ti := cur[fid]
+					if tb.level == g.level && utils.CompareKeys([]byte(k), ti.Min) >= 0 && utils.CompareKeys([]byte(k), ti.Max) <= 0 {
+						if _, ok := tb.keys[k]; !ok {
+							tb.keys[k] = false
+							tb.seq[k] = g.seq[k]
+						}
+						homed = true
+					}
+				}
+				if !homed {
+					t.Unknown = true
+				}
+			}
+		}
 	case len(added) == 0 && len(gone) == 0:
 		// pure move (L0 -> ingest buffer) or nothing
 	case len(gone) == 0:
@@ -131,6 +157,20 @@ func (t *Tracker) Sync(layout []lsm.VerifTableInfo, flushed bool) {
 				}
 			}
 		}
+		for _, ti := range added {
+			for _, tb := range t.tabs {
+				if tb.level == ti.Level && !tb.ingest {
+					for k, sq := range tb.seq {
+						if _, ok := present[k]; !ok {
+							present[k] = false
+						}
+						if sq > maxSeq[k] {
+							maxSeq[k] = sq
+						}
+					}
+				}
+			}
+		}
 		outs := make([]*ttab, len(added))
 		for i, ti := range added {
 			outs[i] = &ttab{keys: map[string]bool{}, seq: map[string]int{}, poisoned: map[string]bool{}, level: ti.Level, ingest: ti.Ingest}
@@ -150,6 +190,13 @@ func (t *Tracker) Sync(layout []lsm.VerifTableInfo, flushed bool) {
 			}
 			if !placed && present[k] {
 				t.Unknown = true
+				if os.Getenv("VERIF_TRACE") != "" {
+					fmt.Printf("TRACE tracker: key %q of the inputs fits no output table:", k)
+					for _, ti := range added {
+						fmt.Printf(" fid=%d[%q..%q]", ti.FID, ti.Min, ti.Max)
+					}
+					fmt.Println()
+				}
 			}
 		}
 	}
@@ -192,8 +239,8 @@ func (t *Tracker) Tainted(k string) bool {
 			groups[p] = append(groups[p], tb)
 		}
 	}
-	if n >= 2 && t.Unknown {
-		return true
+	if t.Unknown && t.writes[k] >= 2 {
+		return true // layout no longer understood: every key that ever had two copies is suspect
 	}
 	var ps []pos
 	for p := range groups {
